@@ -20,6 +20,8 @@ func init() {
 const pkgCache = "core/arbitrators/caching"
 
 func checkC19(c *Ctx, r *Report) {
+	defer checkMemoKeys(c, r, "C19.e")
+	defer checkNoInPlaceWritesToInputs(c, r, "C19.b", "core/metadata", "core/validators", "graphs/symboldg", "generator/swagen", "generator/routes")
 	defer checkGraphMutationSites(c, r, "C19.a")
 	defer checkContainerFields(c, r, "C19.e")
 	w := c.W
@@ -417,4 +419,152 @@ func checkGraphMutationSites(c *Ctx, r *Report, clause string) {
 	}
 	o := r.add(clause, "whocalls", "graph-mutation-sites", "the symbol graph is added to and removed from at the reviewed (function, method) pairs only", []string{"tables/graphmutations.json"}, sites, viol)
 	o.NonTrivial = true
+}
+
+// checkNoInPlaceWritesToInputs: the metadata the visitors produce is kept in the cache and the
+// graph and handed to every later reduction / validation pass by value - but a copied struct
+// still shares its slices' backing arrays. Code of the reducing and validating packages must not
+// write into a slice it received (through a receiver, a parameter or a field of one): neither
+// by index (`in.F[i] = v`) nor by appending to a shortened view of it (`append(in.F[:k], ...)`
+// stores into in.F's array). In-place sorts are inventoried separately (sorts.json).
+func checkNoInPlaceWritesToInputs(c *Ctx, r *Report, clause string, pkgPrefixes ...string) {
+	w := c.W
+	viol := ""
+	var sites []string
+	nFns := 0
+	// what is kept between passes: metadata, IR and annotation values (an accumulator of
+	// diagnostics or conflicts that is passed in and handed back is the callee's to fill)
+	kept := func(t types.Type) bool {
+		sl, ok := t.Underlying().(*types.Slice)
+		if !ok {
+			return false
+		}
+		et := sl.Elem()
+		if p, ok := et.(*types.Pointer); ok {
+			et = p.Elem()
+		}
+		if n, ok := et.(*types.Named); ok && n.Obj().Pkg() != nil {
+			switch short(n.Obj().Pkg().Path()) {
+			case "core/metadata", "definitions", "core/annotations", "graphs", "gast":
+				return true
+			}
+			return false
+		}
+		_, basic := et.Underlying().(*types.Basic)
+		return basic
+	}
+	fromInput := func(v ssa.Value) (bool, string) {
+		if !kept(v.Type()) {
+			return false, ""
+		}
+		for _, ov := range w.originValues(v) {
+			ov = stripTrivial(ov)
+			var base ssa.Value
+			switch x := ov.(type) {
+			case *ssa.UnOp: // load of a field
+				if fa, ok := x.X.(*ssa.FieldAddr); ok {
+					base = fa.X
+				}
+			case *ssa.Field:
+				base = x.X
+			case *ssa.Parameter:
+				if _, isSlice := x.Type().Underlying().(*types.Slice); isSlice {
+					return true, "parameter " + x.Name()
+				}
+			}
+			for i := 0; base != nil && i < 6; i++ {
+				switch b := base.(type) {
+				case *ssa.Parameter:
+					return true, "a field of " + b.Name()
+				case *ssa.FieldAddr:
+					base = b.X
+				case *ssa.Field:
+					base = b.X
+				case *ssa.UnOp:
+					base = b.X
+				case *ssa.Alloc:
+					// the spilled receiver / parameter copy
+					var src ssa.Value
+					if refs := b.Referrers(); refs != nil {
+						for _, rf := range *refs {
+							if st, ok := rf.(*ssa.Store); ok && st.Addr == ssa.Value(b) {
+								src = st.Val
+							}
+						}
+					}
+					base = src
+				default:
+					base = nil
+				}
+			}
+		}
+		return false, ""
+	}
+	for _, fi := range w.funcsOfPkgPrefixes(pkgPrefixes...) {
+		if fi.SSA == nil {
+			continue
+		}
+		nFns++
+		allInstrsLocal(fi.SSA, true, func(_ *ssa.Function, _ *ssa.BasicBlock, _ int, ins ssa.Instruction) {
+			switch x := ins.(type) {
+			case *ssa.Store:
+				ia, ok := x.Addr.(*ssa.IndexAddr)
+				if !ok {
+					return
+				}
+				if _, isSlice := ia.X.Type().Underlying().(*types.Slice); !isSlice {
+					return
+				}
+				if in, what := fromInput(ia.X); in {
+					sites = append(sites, w.pos(x.Pos()))
+					viol = fmt.Sprintf("%s: %s stores into an element of a slice it was given (%s): the caller's copy - the metadata kept in the cache and the graph - changes with it, so the next pass starts from different data", w.pos(x.Pos()), fi.Key, what)
+				}
+			case *ssa.Call:
+				if calleeName(x) != "builtin.append" || len(x.Call.Args) == 0 {
+					return
+				}
+				// the destination: through the loop phi of `dst = append(dst, ...)` back to where dst started
+				var sl *ssa.Slice
+				seen := map[ssa.Value]bool{}
+				var find func(v ssa.Value, d int)
+				find = func(v ssa.Value, d int) {
+					v = stripTrivial(v)
+					if v == nil || seen[v] || d > 8 || sl != nil {
+						return
+					}
+					seen[v] = true
+					switch y := v.(type) {
+					case *ssa.Slice:
+						sl = y
+					case *ssa.Phi:
+						for _, e := range y.Edges {
+							find(e, d+1)
+						}
+					case *ssa.Call:
+						if calleeName(y) == "builtin.append" && len(y.Call.Args) > 0 {
+							find(y.Call.Args[0], d+1)
+						}
+					}
+				}
+				find(x.Call.Args[0], 0)
+				if sl == nil {
+					return
+				}
+				if _, isSlice := sl.X.Type().Underlying().(*types.Slice); !isSlice {
+					return
+				}
+				if in, what := fromInput(sl.X); in && sl.Max == nil {
+					sites = append(sites, w.pos(x.Pos()))
+					viol = fmt.Sprintf("%s: %s appends to a shortened view of a slice it was given (%s): append writes into that slice's own array, so the caller's copy - the metadata kept in the cache and the graph - is compacted / overwritten in place and the next pass starts from different data", w.pos(x.Pos()), fi.Key, what)
+				}
+			}
+		})
+	}
+	if nFns < 50 {
+		viol = fmt.Sprintf("only %d functions inspected (floor 50)", nFns)
+	}
+	if len(sites) == 0 {
+		sites = []string{"gleece:0"}
+	}
+	r.add(clause, "alias-write", "no-in-place-write-to-input-slices:"+strings.Join(pkgPrefixes, ","), "reducers and validators never write into a slice they were handed", pkgPrefixes, sites, viol)
 }
